@@ -8,6 +8,7 @@
 (* while which fetches are outstanding, in which order the database serves the fetches and   *)
 (* with which outcome.  At most one session waits for an allocator's mutex (the Go mutex     *)
 (* does not promise an order among several waiters).                                         *)
+(* With HoldLock = FALSE the same generator yields probe schedules (see Sequence.tla).        *)
 (* Every quiescent behaviour with exactly GenReq calls is printed as one JSON line; every    *)
 (* event carries what the specification expects the implementation to show.                  *)
 EXTENDS Sequence, TLC, Json
@@ -16,7 +17,8 @@ CONSTANTS GenReq
 VARIABLE hist
 
 Pending(a) == {c \in Callers : A(c) = a /\ pc[c] = "started"}
-Urgent == {c \in Callers : \/ pc[c] \in {"got", "issue"}
+Urgent == {c \in Callers : \/ pc[c] = "issue"
+                           \/ pc[c] = "got" /\ HoldLock        \* probe model: the reply may be installed late
                            \/ pc[c] = "started" /\ lock[A(c)] = NoOne}
 
 Ev(e, c) == [ev |-> e, a |-> c[1], g |-> c[2]]
@@ -32,12 +34,15 @@ GenNext ==
     ELSE \E c \in Callers :
             \/ Start_(c) /\ Pending(A(c)) = {} /\ hist' = Append(hist, Ev("start", c))
             \/ \E o \in Outcomes : Fetch(c, o) /\ hist' = Append(hist, Ev("fetch", c) @@ [o |-> o, reply |-> Reply(o)])
+            \/ /\ ~HoldLock /\ pc[c] = "got"
+               /\ Complete(c) /\ hist' = Append(hist, Ev("ret", c) @@ [ok |-> Result(c).ok, v |-> Result(c).v])
 
 GenSpec == GenInit /\ [][GenNext]_<<vars, hist>>
 
 Quiescent == \A c \in Callers : pc[c] = "idle"
 
-Emit == (nreq = GenReq /\ Quiescent) =>
+(* HoldLock = FALSE (probe model): only the behaviours that end in a property violation are of interest *)
+Emit == (nreq = GenReq /\ Quiescent /\ (HoldLock \/ dup \/ nonmono)) =>
           PrintT(<<"CASE", ToJson([inc |-> Inc, start |-> Start, maxlimit |-> MaxLimit, k |-> K,
                                   allocs |-> Allocs, events |-> hist])>>)
 ===================================================================================
